@@ -264,8 +264,26 @@ SPACE_ALPH = {"T3": (3, V12), "T4": (4, V6), "T5": (5, V4), "T6": (6, V3),
               "T3|V4": (3, V4), "T4|V3": (4, V3), "T4|V2": (4, V2), "T3|V3": (3, V3)}
 
 
+def games_PK(cfg):
+    """Team sizes 4..8 (the sizes between the small products and the corner space): for every k, shapes (k,1) (1,k) (k,k) (k,2,1)
+    x three value patterns (all default / members alternating over V2 / one low-sigma veteran among defaults)."""
+    b = cfg.beta
+    d = (6 * b, 2 * b)
+    pats = {
+        "default": lambda i, j: d,
+        "alt": lambda i, j: ((6 * b, 2 * b) if (i + j) % 2 == 0 else (-2 * b, 1e-4 * b)),
+        "veteran": lambda i, j: ((8 * b, 1e-2 * b) if j == 1 else ((6 + i) * b, 2 * b)),
+    }
+    for k in range(4, 9):
+        for shape in ((k, 1), (1, k), (k, k), (k, 2, 1)):
+            for name, f in pats.items():
+                yield [[f(i, j) for j in range(sz)] for i, sz in enumerate(shape)]
+
+
 def value_games(space, kind, cfg):
     """Value games (no outcome) of a named space, absolute units."""
+    if space == "PK":
+        return games_PK(cfg)
     if space == "S2":
         return games_S2(kind, cfg)
     if space == "P2":
@@ -320,6 +338,7 @@ def pred_games(space, cfg):
         yield from games_T(n, al, cfg)
         return
     if space == "GP":
+        yield from games_PK(cfg)
         yield from games_P3(cfg)
         yield from games_dev(8, cfg, size=8)
         yield from games_dev(2, cfg, size=16)
